@@ -35,7 +35,21 @@ case "$mode" in
     exec "$BIN" -p "$arg" -tier quick -repo "$REPO" -verif "$HERE" ;;
   thorough)
     build
-    exec "$BIN" -p "$arg" -tier thorough -repo "$REPO" -verif "$HERE" ;;
+    rc=0
+    # 1. positive controls: every registered micro-mutation of this property must be reported
+    ST="$(mktemp)"
+    python3 "$HERE/selftest.py" "$arg" >"$ST" 2>&1; src=$?
+    grep -E "MISSED|broken|summary" "$ST"
+    # 2. other build configurations (files behind GOOS build tags)
+    for os in darwin windows; do
+      "$BIN" -p "$arg" -tier thorough -goos "$os" -repo "$REPO" -verif "$HERE" -no-evidence | grep -E "^(VIOLATION|VIOLATED|UNDECIDED|SUMMARY)" | sed "s/^SUMMARY/SUMMARY goos=$os/"
+      [ "${PIPESTATUS[0]}" -ne 0 ] && rc=1
+    done
+    # 3. the check itself on the host configuration; writes the evidence file
+    VERIF_SELFTEST_LOG="$ST" "$BIN" -p "$arg" -tier thorough -repo "$REPO" -verif "$HERE" || rc=1
+    rm -f "$ST"
+    if [ $src -ne 0 ] && [ $rc -eq 0 ]; then echo "SELFTEST-FAILED: a positive control of $arg was not reported (checker defect, not a property violation)"; exit 3; fi
+    exit $rc ;;
   replay)
     build
     exec "$BIN" -replay "$arg" -repo "$REPO" -verif "$HERE" ;;
